@@ -13,6 +13,7 @@ EXPLANATION = (
     "name, colon, value) without consuming the opening quote twice, and the value skipper dispatches on exactly "
     "FIRST(JSON value); the reported consumed length is the cursor left by the closing-brace test; what json_unescape writes is at every write a constant byte of the escape table, input bytes copied verbatim, or encode_utf8's encoding of a \\u code point (a computed value stored as one byte must be proved below 0x80). That accessor "
     "values equal an independent parser's on all texts is not decided.")
+EXPLANATION += " Also decided: every path of parse_json_event to Ok passes the parser's own recognition of the closing brace (no hand-over of the rest of the object to a skipper); json_unescape hands a \\\\u value to encode_utf8 only after testing it against D800..DFFF; a piece of the JSON text reaches the packed form without json_unescape only under a scan (evaluated for all 256 byte values) that admits no backslash, quote or control character."
 ASSUMPTIONS = []
 
 READERS = {b'id"': [parsers.JP + "read_id"], b'pubkey"': [parsers.JP + "read_pubkey"], b'sig"': [parsers.JP + "read_sig"],
@@ -49,9 +50,12 @@ def run(ctx):
     n = parsers.quote_state(ctx, s, parsers.EVENT_PARSER)
     ctx.floor("C01.calls-after-open-quote", n, 1)
     parsers.fallthrough_skips_member(ctx, s, parsers.EVENT_PARSER)
+    parsers.object_left_at_close_brace(ctx, s, parsers.EVENT_PARSER)
     parsers.skipper_first_set(ctx, s)
     parsers.literal_skippers_advance(ctx, s)
     escaping.unescape_writes(ctx, s)
+    escaping.surrogates_refused(ctx, s)
+    escaping.raw_input_copies(ctx, s, [parsers.EVENT_PARSER, parsers.JP + "read_content", parsers.JP + "read_tags_array"])
     escaping.utf8_width_table(ctx, s)
     # 4. consumed length
     an = ctx.E.an(fn)
